@@ -20,7 +20,7 @@ RULE = ('(a) byte snapshots of every array argument before/after every call of t
 ASSUMPTIONS = ['the operation on independent copies is the reference for aliased forms',
                'views returned by getitem/transpose/reshape are not modifications; in-place operators may change only the left operand; '
                'pb_* may change only their out= accumulators']
-ALIAS = ['same', 'fullview', 'transposed', 'reversed', 'overlap']
+ALIAS = ['same', 'fullview', 'transposed', 'reversed', 'overlap', 'left-is-view', 'left-is-transposed-view']
 BIN = {'add': operator.add, 'sub': operator.sub, 'mul': operator.mul, 'div': operator.truediv, 'pow': operator.pow,
        'dot': algopy.dot, 'outer': algopy.outer, 'minimum': algopy.minimum, 'maximum': algopy.maximum}
 IOP = {'iadd': operator.iadd, 'isub': operator.isub, 'imul': operator.imul, 'idiv': operator.itruediv}
@@ -116,6 +116,8 @@ def run_case(ctx, case):
             continue
         if ak in ('reversed', 'overlap') and len(shape) == 0:
             continue
+        if ak == 'left-is-view' and len(shape) == 0:
+            continue
         x = UTPM(data.copy())
         xc = UTPM(data.copy())
         if ak == 'same':
@@ -126,6 +128,22 @@ def run_case(ctx, case):
             r = x.T; rc = UTPM(np.swapaxes(data, -1, -2).copy())
         elif ak == 'reversed':
             r = x[::-1]; rc = UTPM(data[:, :, ::-1].copy())
+        elif ak in ('left-is-view', 'left-is-transposed-view'):
+            # x[...] op= x  /  v = x.T; v op= x : the left operand is a view of the right operand's own buffer
+            if ak == 'left-is-transposed-view' and not (len(shape) == 2 and shape[0] == shape[1]):
+                continue
+            owner = UTPM(data.copy())
+            left = owner[...] if ak == 'left-is-view' else owner.T
+            lc = UTPM(data.copy()) if ak == 'left-is-view' else UTPM(np.swapaxes(data, -1, -2).copy())
+            try:
+                IOP[op](left, owner); IOP[op](lc, UTPM(data.copy()))
+            except Exception:
+                ctx.skip('unsupported:alias:%s:%s' % (op, ak)); continue
+            err = float(np.max(np.abs(left.data - lc.data)) / (np.max(np.abs(lc.data)) + 1e-300)) if lc.data.size else 0.0
+            if not err <= TOL:
+                ctx.violation('alias:%s:%s:value' % (op, ak), {'op': op, 'alias': ak, 'D': D, 'P': P, 'shape': shape, 'err': err}); return
+            ctx.ok('alias:' + op, ('iop', op, ak, D, P, shape), noise=err)
+            continue
         else:
             # x[1:] op= x[:-1]: overlapping slices of the same buffer
             if shape[0] < 2:
